@@ -933,6 +933,11 @@ func TestGen(t *testing.T) {
 	cl := ckit.NewCluster(t, ckit.Options{TraceLocks: true})
 	d := &driver{t: t, cl: cl, r: r, out: out, budget: budget}
 	d.corpus()
+	if thorough {
+		d.concurrent(40)
+	} else {
+		d.concurrent(8)
+	}
 	hist := 0
 	for out.N < budget {
 		hist++
@@ -1050,6 +1055,89 @@ func (d *driver) corpus() {
 		op{"op": "dissociate", "ids": []int{3}},
 		op{"op": "addnode", "node": "x1", "pod": "p0", "cpu": 2, "mem": 512 * mib},
 		op{"op": "removenode", "node": "x1"})
+}
+
+// concurrent: pairs of operations on DIFFERENT workloads of the same node started together
+// (C10 quantifies over such interleavings). The post-state must be consistent and equal to one
+// of the two sequential orders of the model.
+func (d *driver) concurrent(trials int) {
+	cl := d.cl
+	cl.Wipe()
+	w := &world{t: d.t, cl: cl, ids: map[string]int{}, next: 1}
+	setup := []map[string]any{{"pod": "p0"}}
+	cl.AddPod("p0")
+	spec := ckit.NodeSpec{Name: "n0", Pod: "p0", CPU: 4, Memory: 4096 * mib}
+	cl.AddNode(spec)
+	setup = append(setup, map[string]any{"node": spec})
+	res := w.exec(op{"op": "create", "pod": "p0", "app": "app0", "count": 4, "strategy": "AUTO", "mem": 128 * mib}, ckit.Plan{})
+	w.analyse(op{"op": "create"}, &res, w.snap(), nil)
+	cp := cl.Checkpoint()
+	for tr := 0; tr < trials; tr++ {
+		cl.Restore(cp)
+		pre := w.preSnap()
+		if len(pre.Wls) < 2 {
+			return
+		}
+		ia := d.r.Intn(len(pre.Wls))
+		ib := (ia + 1 + d.r.Intn(len(pre.Wls)-1)) % len(pre.Wls)
+		mkOp := func(kind string, x wlJ) op {
+			switch kind {
+			case "realloc":
+				return op{"op": "realloc", "id": x.ID, "mem": d.r.Range(1, 4) * 64 * mib}
+			default:
+				return op{"op": kind, "ids": []int{x.ID}}
+			}
+		}
+		oa := mkOp(hx.Pick(d.r, "remove", "dissociate", "realloc"), pre.Wls[ia])
+		ob := mkOp(hx.Pick(d.r, "remove", "dissociate"), pre.Wls[ib])
+		ra, rb := w.realID(pre.Wls[ia].ID), w.realID(pre.Wls[ib].ID)
+		call := func(o op, real string) {
+			ctx := cl.Ctx()
+			switch o.s("op") {
+			case "remove":
+				if ch, err := cl.C.RemoveWorkload(ctx, []string{real}, true); err == nil {
+					for range ch {
+					}
+				}
+			case "dissociate":
+				if ch, err := cl.C.DissociateWorkload(ctx, []string{real}); err == nil {
+					for range ch {
+					}
+				}
+			case "realloc":
+				_ = cl.C.ReallocResource(ctx, &types.ReallocOptions{ID: real, Resources: wlRequest(o)})
+			}
+		}
+		var trace []ckit.Event
+		hx.Guard(60*time.Second, func() {
+			trace = cl.Traced(ckit.Plan{}, func() {
+				start := make(chan struct{})
+				done := make(chan struct{}, 2)
+				go func() { <-start; call(oa, ra); done <- struct{}{} }()
+				go func() { <-start; call(ob, rb); done <- struct{}{} }()
+				close(start)
+				<-done
+				<-done
+			})
+		})
+		argsOf := func(o op, x wlJ) map[string]any {
+			if o.s("op") == "realloc" {
+				var answer any
+				for _, e := range trace {
+					if e.Kind == "pluginRealloc" && !e.Failed {
+						answer = map[string]any{"delta": oneRes(e.Data["delta"]), "res": oneRes(e.Data["resources"])}
+					}
+				}
+				return map[string]any{"node": x.Node, "id": x.ID, "answer": answer}
+			}
+			return map[string]any{"first": x.Node, "groups": []map[string]any{{"node": x.Node, "ids": []int{x.ID}}}}
+		}
+		post := w.snap()
+		d.out.Emit(&kase{ID: fmt.Sprintf("conc-%d", tr), Op: "concurrent",
+			Args: map[string]any{"a": map[string]any{"op": oa.s("op"), "args": argsOf(oa, pre.Wls[ia])}, "b": map[string]any{"op": ob.s("op"), "args": argsOf(ob, pre.Wls[ib])}},
+			Req:  map[string]any{"a": oa, "b": ob}, Pre: pre, Post: post, Msgs: []msgJ{}, Ret: "ok", Trace: trOf(trace),
+			Impl: map[string]any{"diffs": post.Diffs}, LockViol: w.lockViolations(trace), Setup: setup})
+	}
 }
 
 func nz(m []msgJ) []msgJ {
